@@ -113,6 +113,9 @@ func buildMotionComponent(w *World, fault bool) (*motionModel, error) {
 		default:
 			if hasMethod(w, ft, "Detect") {
 				m.detFld = i
+			} else if m.winFld < 0 && embedsWindow(ft) && (hasMethod(w, ft, "Active") || hasMethod(w, types.NewPointer(ft), "Active")) {
+				// a wrapper around the configured window (checked for freshness in C04.S7)
+				m.winFld = i
 			}
 		}
 	}
@@ -180,6 +183,20 @@ func buildMotionComponent(w *World, fault bool) (*motionModel, error) {
 	c.OnSinkEvent = m.onSinkEvent
 	c.OnExit = m.onExit
 	return m, nil
+}
+
+// embedsWindow: a struct one of whose fields is the library's window.Window
+func embedsWindow(t types.Type) bool {
+	st, ok := t.Underlying().(*types.Struct)
+	if !ok {
+		return false
+	}
+	for i := 0; i < st.NumFields(); i++ {
+		if typeIs(st.Field(i).Type(), "github.com/TheCacophonyProject/window", "Window") {
+			return true
+		}
+	}
+	return false
 }
 
 func hasMethod(w *World, t types.Type, name string) bool {
